@@ -191,6 +191,15 @@ func (r *Report) Finish(verifDir string, replayKey string) int {
 	}
 
 	// evidence
+	if r.Assumptions == nil {
+		r.Assumptions = []string{}
+	}
+	if r.Trusted == nil {
+		r.Trusted = []string{}
+	}
+	if r.Notes == nil {
+		r.Notes = []string{}
+	}
 	var samples []any
 	step := 1
 	if len(r.Obls) > 40 {
